@@ -16,9 +16,11 @@ use std::sync::Arc;
 pub const GROUP: &str = "group";
 pub const STAKE: &str = "stakec";
 pub const DENOM: &str = "stake";
+pub const TOKEN: &str = "token";
 
-/// callers: the initial admin, a second admin candidate, a stranger
-pub const CALLERS: [&str; 3] = ["AD", "AD2", "X"];
+/// callers: the initial admin, a second admin candidate, a stranger; group configurations may add
+/// the member addresses A and B (indices 3, 4 = MEMBERS[0], MEMBERS[1]) as callers
+pub const CALLERS: [&str; 5] = ["AD", "AD2", "X", "A", "B"];
 /// default hook addresses; a configuration may instead name callers or stakers as hooks
 pub const HOOKS: [&str; 3] = ["H1", "H2", "H3"];
 pub const MEMBERS: [&str; 3] = ["A", "B", "C"];
@@ -103,7 +105,7 @@ fn unchanged_by_non_admin(
     if with_members && pre.members != post.members {
         out.push(Violation::new(
             &format!("C14.members_changed_{sfx}"),
-            format!("{what}: members {:?} -> {:?}", pre.members, post.members),
+            format!("{what}: members {:?} -> {:?}", pretty_map(&pre.members), pretty_map(&post.members)),
         ));
     }
 }
@@ -119,6 +121,8 @@ pub struct GroupCfg {
     pub remove_lists: Vec<Vec<u8>>,
     /// callers that try UpdateMembers with the full alphabet (others get a reduced one)
     pub full_callers: Vec<u8>,
+    /// how many of CALLERS call (3 = admins and a stranger, 5 = also the members A and B)
+    pub n_callers: u8,
     /// labels of the addresses offered to AddHook/RemoveHook (may include the admins themselves)
     pub hooks: Vec<&'static str>,
     pub hmax: u64,
@@ -195,7 +199,7 @@ impl Model for GroupAdmin {
         if s.dead {
             return out;
         }
-        for by in 0..CALLERS.len() as u8 {
+        for by in 0..cfg.n_callers {
             out.push(GAct::UpdateAdmin { by, new: None });
             out.push(GAct::UpdateAdmin { by, new: Some(0) });
             out.push(GAct::UpdateAdmin { by, new: Some(1) });
@@ -332,6 +336,10 @@ pub struct StakeCfg {
     pub min_bond: u128,
     pub funds: Vec<u128>,
     pub amounts: Vec<u128>,
+    /// stake token is a real cw20-base instance: users bond through Send{Bond}, the kernel dispatches
+    /// every message (hook addresses are sink contracts) and the notifications are read from the
+    /// dispatch trace (messages sent BY the staking contract)
+    pub cw20: bool,
     /// labels of the addresses offered to AddHook/RemoveHook (may include a staker)
     pub hooks: Vec<&'static str>,
     pub hmax: u64,
@@ -364,21 +372,54 @@ impl Model for StakeAdmin {
         let mut w = World::new();
         w.height = H0;
         w.time_s = T0;
-        w.dispatch = false;
-        for (i, f) in cfg.funds.iter().enumerate() {
-            w.set_balance(&a(STAKERS[i]), DENOM, *f);
+        w.dispatch = cfg.cw20;
+        let mut v = vec![];
+        if cfg.cw20 {
+            let tmsg = cw20_base::msg::InstantiateMsg {
+                name: "Token".into(),
+                symbol: "TOK".into(),
+                decimals: 6,
+                initial_balances: cfg
+                    .funds
+                    .iter()
+                    .enumerate()
+                    .filter(|(_, f)| **f > 0)
+                    .map(|(i, f)| cw20::Cw20Coin { address: a(STAKERS[i]), amount: Uint128::new(*f) })
+                    .collect(),
+                mint: None,
+                marketing: None,
+            };
+            let o = w.instantiate(cw20_vt(), &a(TOKEN), &a("creator"), &to_json_vec(&tmsg).unwrap(), &[]);
+            if !o.ok() {
+                v.push(Violation::new("cfg.instantiate_failed", o.err()));
+            }
+            for h in &cfg.hooks {
+                let o = w.instantiate(&mc::stubs::SINK, &a(h), &a("creator"), b"{}", &[]);
+                if !o.ok() {
+                    v.push(Violation::new("cfg.instantiate_failed", o.err()));
+                }
+            }
+        } else {
+            for (i, f) in cfg.funds.iter().enumerate() {
+                w.set_balance(&a(STAKERS[i]), DENOM, *f);
+            }
         }
         let msg = cw4_stake::msg::InstantiateMsg {
-            denom: cw20::Denom::Native(DENOM.into()),
+            denom: if cfg.cw20 {
+                cw20::Denom::Cw20(cosmwasm_std::Addr::unchecked(a(TOKEN)))
+            } else {
+                cw20::Denom::Native(DENOM.into())
+            },
             tokens_per_weight: Uint128::new(cfg.tpw),
             min_bond: Uint128::new(cfg.min_bond),
             unbonding_period: Duration::Height(1),
             admin: cfg.admin.map(|i| a(CALLERS[i as usize])),
         };
         let out = w.instantiate(stake_vt(), &a(STAKE), &a("creator"), &to_json_vec(&msg).unwrap(), &[]);
-        let mut v = vec![];
         if !out.ok() {
             v.push(Violation::new("cfg.instantiate_failed", out.err()));
+        }
+        if !v.is_empty() {
             return (State { w, r: Ref::default(), obs: Arc::new(Obs::default()), dead: true }, v);
         }
         let r = Ref { admin: cfg.admin, hooks: vec![], members: BTreeMap::new() };
@@ -402,7 +443,7 @@ impl Model for StakeAdmin {
         if s.dead {
             return out;
         }
-        for by in 0..CALLERS.len() as u8 {
+        for by in 0..3u8 {
             out.push(SAct::UpdateAdmin { by, new: None });
             out.push(SAct::UpdateAdmin { by, new: Some(0) });
             out.push(SAct::UpdateAdmin { by, new: Some(1) });
@@ -465,7 +506,20 @@ impl Model for StakeAdmin {
             Some(_) => format!("{label}({})", if is_admin { "admin" } else if r.admin.is_none() { "anyone, admin cleared" } else { "not the admin" }),
             None => label.to_string(),
         };
-        let out = w.execute_json(&sender, &st, &msg, &funds);
+        let out = match act {
+            // cw20 stake token: the user asks the token to send the tokens with a Bond instruction
+            SAct::Bond { amt, .. } if self.cfg.cw20 => w.execute_json(
+                &sender,
+                &a(TOKEN),
+                &cw20::Cw20ExecuteMsg::Send {
+                    contract: st.clone(),
+                    amount: Uint128::new(amt.0),
+                    msg: cosmwasm_std::to_json_binary(&cw4_stake::msg::ReceiveMsg::Bond {}).unwrap(),
+                },
+                &[],
+            ),
+            _ => w.execute_json(&sender, &st, &msg, &funds),
+        };
         let ok = out.ok();
         if !ok {
             // a failed transaction commits nothing in the kernel: the state is the pre-state
@@ -498,7 +552,13 @@ impl Model for StakeAdmin {
                 }
                 admin_hooks_agree(&self.cfg.hooks, &r, &obs, &mut v);
             }
-            let msgs = out.top.as_ref().map(|t| t.messages.clone()).unwrap_or_default();
+            // the messages the staking contract emitted in this transaction: its own response when
+            // nothing is dispatched, else what the kernel routed on its behalf (and committed)
+            let msgs: Vec<cosmwasm_std::SubMsg> = if self.cfg.cw20 {
+                out.committed().filter(|d| d.sender == st).map(|d| cosmwasm_std::SubMsg::new(d.msg.clone())).collect()
+            } else {
+                out.top.as_ref().map(|t| t.messages.clone()).unwrap_or_default()
+            };
             let listed: BTreeSet<String> = match act {
                 SAct::Bond { .. } | SAct::Unbond { .. } => [sender.clone()].into_iter().collect(),
                 _ => BTreeSet::new(),
